@@ -4,6 +4,10 @@ NOTES = ("Technique family: runtime monitoring and sanitizers. Every verdict is 
          "evidence files report what the monitors saw. See DESIGN.md.")
 
 ENGINES = [
+    {"name": "sweep", "path": "harness/src/engines/sweep.rs", "serves_properties": ["C11"],
+     "kind_free_text": "TTL monitors: sweeper = background sweeper racing renewals/replacements at the expiry edge under a virtual clock with delayed sweeper removal; ttlcrash = crash images where an expiring generation supersedes a durable one, recovered with TTL on then off"},
+    {"name": "cache", "path": "harness/src/engines/cache.rs", "serves_properties": ["C16"],
+     "kind_free_text": "ClockCache API vs reference map: accounting after every call, remove-then-miss, eviction to the low watermark, second-chance rule, concurrent conservation"},
     {"name": "sanitizer lanes", "path": "lib/lanes.py + harness/src/engines/san.rs", "serves_properties": ["C20"],
      "kind_free_text": "the concurrency, model, crash, fuzz-open, fault, liveness and direct-I/O engines rebuilt and re-run under AddressSanitizer, ThreadSanitizer (-Zbuild-std), Miri and valgrind memcheck; reports parsed from logs, deduplicated, classified by whether the access is in /repo/src"},
     {"name": "migrate", "path": "harness/src/engines/migrate.rs", "serves_properties": ["C15"],
@@ -127,7 +131,7 @@ TEXT = {
     "C11": {
         "engine": "model",
         "technique": "runtime differential monitoring under a virtual clock stepped to expiry-1/expiry/expiry+1 (sequential part)",
-        "level_text": "TTL-biased programs under a virtual clock: every value-reading method is probed at expiry-1 ns, exactly at expiry and at expiry+1 ns; expiry instants are compared exactly before/after flush and clean reopen (TTL on and off); TTL-only updates of on-disk-only keys keep the value. Sequential exploration; sweeper and crash interleavings are covered by the sweeper/crash engines when registered for this property.",
+        "level_text": "TTL-biased programs under a virtual clock: every value-reading method is probed at expiry-1 ns, exactly at expiry and at expiry+1 ns; expiry instants are compared exactly before/after flush and clean reopen (TTL on and off); TTL-only updates of on-disk-only keys keep the value. Concurrent part: the background sweeper (1 ms) races renewals, persists and replacement writes of keys 3 ms before / 2 ms after expiry, with its guarded removal delayed 1.5 ms after sampling; renewed keys must stay readable, expired keys must not be served by get/range, keys without expiry must never fail a read. Crash part: an expiring generation supersedes a durable one; for every cut after that, crash images are recovered with TTL on and the clock past the expiry (the expired generation is never served, the older one never resurfaces), then reopened with TTL off (still nothing older), and compared with the same image recovered with TTL off.",
         "level_note": _MODEL_NOTE,
     },
     "C12": {
@@ -151,7 +155,7 @@ TEXT = {
     "C16": {
         "engine": "model",
         "technique": "runtime differential monitoring: identical model, cache on vs cache off, with cache hits confirmed through statistics and the H5 accessor (sequential part)",
-        "level_text": "Read-heavy programs with frequent flushes on paired configurations (cache on / off) are each compared step by step with the same reference model, so any call whose result depends on the cache is a mismatch; hits are confirmed (cache_hits delta while the key is cached). Covers updates, deletes, re-creation with lower timestamps, TTL changes and restarts masking stale entries. Concurrent part: the reuse engine (readers racing updates/deletes/TTL rewrites/flushes with genuineness+recency oracle) is run with the cache on, where a stale hit would surface as a stale value. Cache-level accounting/eviction is covered by the cache engine when registered.",
+        "level_text": "Read-heavy programs with frequent flushes on paired configurations (cache on / off) are each compared step by step with the same reference model, so any call whose result depends on the cache is a mismatch; hits are confirmed (cache_hits delta while the key is cached). Covers updates, deletes, re-creation with lower timestamps, TTL changes and restarts masking stale entries. Concurrent part: the reuse engine (readers racing updates/deletes/TTL rewrites/flushes with genuineness+recency oracle) is run with the cache on, where a stale hit would surface as a stale value. Cache level: the public ClockCache API against a reference map with byte-granular small watermarks: reported memory = sum of entry sizes after every call, remove is followed by a miss, entries vanish only through remove/clear/due eviction, evict_entries ends at or below the low watermark and spares referenced entries when unreferenced ones suffice; 8-thread conservation runs.",
         "level_note": _MODEL_NOTE,
     },
     "C06": {
